@@ -155,7 +155,7 @@ Definition ex_404 : reply := RData (Some [101; 4; 102; 2; 1; 148]) true.
 Definition ex_events : list event :=
   [ERoute (ex_name 114); EConnect; ECall KReg (ex_name 97); ECall KUnreg (ex_name 98); ECall KReg (ex_name 99);
    EReply 0 ex_200] ++ repeat ETick 10 ++ [EReply 0 ex_404] ++ repeat ETick 10 ++
-  [EReply 0 (RData (Some [1; 2; 3]) true)] ++ repeat ETick 10 ++ [EReply 0 RNack].
+  [EReply 0 (RData (Some [1; 2; 3]) true)] ++ repeat ETick 10 ++ [EReply 0 (RNack 0)].
 
 Example C17_example_v2 :
   let l := log (run_events fe_v2 (fun _ => 5) ex_events) in
